@@ -79,7 +79,7 @@ func DirectedHeldEpoch(base string, seed int64, useCopy bool) (*DirectedResult, 
 	if !waitParked(r, 10*time.Second) {
 		return nil, fmt.Errorf("directed: persister did not park after batch 3 (committed %d acked %d takes %d)", r.Rec.Count("PersistCommitted"), r.Rec.Count("PersistAcked"), r.Rec.Count("PersistTake"))
 	}
-	time.Sleep(5 * time.Millisecond) // let it reach the parking point
+	time.Sleep(5 * time.Millisecond)                 // let it reach the parking point
 	if err := step([]string{"d"}, nil); err != nil { // root moves to an epoch the parked persister never takes
 		return nil, err
 	}
@@ -175,7 +175,6 @@ func waitParked(r *Run, timeout time.Duration) bool {
 	}
 	return false
 }
-
 
 // DirectedFailedMerge drives the "fast merger, slow persister, failed merge"
 // schedule of ScorchDisk's MFail action (found by TLC as the shortest way a
